@@ -318,9 +318,11 @@ def handle (d : DState) (line : String) : DState × List String :=
         let evs := s'.log.reverse
         let nm (e : TEv) : String := match e with
           | .enter c => s!"enter {c}" | .exit c => s!"exit {c}" | .cancelled c => s!"cancelled {c}"
-          | .failed c => s!"failed {c}" | .closed c => s!"closed {c}"
-        let main := (evs.filter fun e => match e with | .closed _ => false | _ => true).map nm
-        let closed := ((evs.filterMap fun e => match e with | .closed c => some c | _ => none).toArray.qsort (· < ·)).toList
+          | .failed c => s!"failed {c}" | .closed c => s!"closed {c}" | .closedTask c => s!"closed {c}"
+          | .submitted c => s!"submitted {c}"
+        -- `submitted` is bookkeeping of the model (conservation theorem), not an observable event
+        let main := (evs.filter fun e => match e with | .closed _ => false | .closedTask _ => false | .submitted _ => false | _ => true).map nm
+        let closed := ((evs.filterMap fun e => match e with | .closed c => some c | .closedTask c => some c | _ => none).toArray.qsort (· < ·)).toList
         ({ d with tm := s' },
           main ++ closed.map (fun c => s!"closed {c}") ++
           [s!"state run={if s'.cur.isSome then 1 else 0} queue={s'.queue.length} tracked={s'.tracked.length} ready={s'.ready.length}"])
